@@ -304,18 +304,18 @@ CHECKS = {
             st("dbgassert", "relda", [2, 8], [40, 300], shards=8),
         ],
         "rule": "the real parse_rewrite_config + FeatureRewriter::rewrite (function hook) against a linear-scan reference. Even cases: a slice of "
-                "the small scope `all lists of <= 3 rules with patterns of length <= 2 over {*, a, b, (a|b)}` x all 85 feature lists of "
+                "the small scope `all lists of <= 3 rules with patterns of length <= 2 over {*, a, b, (a|b), (a)}` x all 85 feature lists of "
                 "length <= 3 over {a, b, c, *}; the scope is partitioned over (shard, case) so that one run enumerates it completely "
-                "(8420 rule lists x 85 lists); every rule has a distinguishable output; the other two sections hold rules that must not "
+                "(27 930 rule lists x 85 lists); every rule has a distinguishable output; the other two sections hold rules that must not "
                 "interfere. Other cases: random lists of <= 12 rules, patterns <= 5, outputs mixing text and $n. Thorough adds the medium scope: "
                 "all 599 844 lists of <= 3 rules with patterns of length <= 3 x all 341 feature lists of length <= 4 (~2*10^8 evaluations). "
                 "Distinct = hash of the rule text.",
         "required_buckets": ["small_scope_slice_enumerated", "random_rule_lists", "some_rule_matched", "no_rule_matched",
                              "later_rule_shares_first_pattern_with_earlier_rule_across_an_intervening_rule"],
         "required_buckets_thorough": ["medium_scope_slice_enumerated"],
-        "exhaustive_total": ["rule_lists_in_small_scope", 8420],
+        "exhaustive_total": ["rule_lists_in_small_scope", 27930],
         "exhaustive_bucket": "small_scope_slice_enumerated",
-        "exhaustive_scope": "rule lists of <= 3 rules with patterns of length <= 2 over {*, a, b, (a|b)} x feature lists of length <= 3 over {a,b,c,*} (complete when total rule_lists_in_small_scope = 8420)",
+        "exhaustive_scope": "rule lists of <= 3 rules with patterns of length <= 2 over {*, a, b, (a|b), (a)} x feature lists of length <= 3 over {a,b,c,*} (27 930 rule lists, count enforced)",
         "assumptions": ["rewrite outputs never use $0 (the rule syntax is 1-origin)"],
     },
     "C18": {
@@ -360,7 +360,7 @@ CHECKS = {
                 "dense and increasing; a gap, a malformed id line or a non-BOS/EOS id 0 (in either table) must yield Err. "
                 "Distinct = hash of the description.",
         "required_buckets": ["non_zero_cost_compared", "optional_template_not_applicable", "id_tables_of_different_sizes",
-                             "rejected_gap_among_ids", "rejected_malformed_id_line", "rejected_id_0_not_BOS_EOS"],
+                             "rejected_gap_among_ids", "rejected_malformed_id_line", "rejected_id_0_not_BOS_EOS", "id_table_lines_not_in_ascending_order"],
         "assumptions": ["feature values contain no '/' and id tables start at 0 with BOS/EOS, as MeCab's do; duplicate model lines are not generated"],
     },
 }
